@@ -367,7 +367,7 @@ func appendSnapshotFunctions(b []byte, s *slip.Scope) []byte {
 		}
 		var fia []*slip.FuncInfo
 		p.EachFuncInfo(func(fi *slip.FuncInfo) {
-			if fi.Pkg == p {
+			if fi.Pkg == p && hasLispDefinition(fi) {
 				fia = append(fia, fi)
 			}
 		})
@@ -392,6 +392,24 @@ func appendSnapshotFunctions(b []byte, s *slip.Scope) []byte {
 		slip.String(slip.CurrentPackage.Name),
 	})
 	return b
+}
+
+// hasLispDefinition returns true if the function was defined in LISP and can
+// be written as such. Functions implemented in go have no body to write, they
+// are there when the application starts.
+func hasLispDefinition(fi *slip.FuncInfo) (ok bool) {
+	defer func() {
+		if recover() != nil {
+			ok = false
+		}
+	}()
+	if fi.Kind == slip.GenericFunctionSymbol || fi.Kind == slip.FlosSymbol {
+		return true
+	}
+	if fun, _ := fi.Create(nil).(slip.Funky); fun != nil {
+		_, ok = fun.Caller().(*slip.Lambda)
+	}
+	return
 }
 
 func isCorePackage(p *slip.Package) bool {
